@@ -31,7 +31,7 @@ META["text"] = (
     "(2) for pairs of ellipsoids, cylinders, boxes, capsules and spheres routed to GJK/EPA, mj_geomDistance (both geom orders) and the contact dist of mj_collision are compared with an independent reference: "
     "separated pairs — alternating projections onto the two bodies, accepted only with a certificate (upper bound |b-a| from feasible points, lower bound from the separating slab along b-a, gap < 1e-7), tolerance 1e-6; "
     "penetrating pairs — the reported depth must equal the extent h_A(n)+h_B(-n) of the Minkowski difference along the reported normal and no direction found by a multi-start projected-gradient search may give a smaller extent (tolerance 1e-5 up to depth 0.02, deeper penetrations 2e-3 relative: the EPA is iteration-limited there); "
-    "touching: axis-aligned pairs exactly touching and +-1e-12 apart, in a canonical frame and under a common rigid motion, must report the gap within 2e-6 (KNOWN finding C15-F1 touching-degenerate: the native GJK/EPA returns garbage, up to the centre distance, for a few percent of such configurations); "
+    "touching: axis-aligned pairs exactly and nearly touching, in a canonical frame and under a common rigid motion, must report the gap within 2e-6, for mj_geomDistance and for the contacts of mj_collision at margin 0, over |gap| in {0, 1e-12, ..., 1e-5} (KNOWN finding C15-F1 touching-degenerate, restricted to this aligned family with |gap| <= 1e-5: the native GJK/EPA returns garbage, up to the centre distance or a spurious centimetre-deep contact, for a few percent of such configurations); "
     "swap symmetry: same distance in both orders, witness points exchanged (normal reversed; contact normals of the two orders within 3 degrees at convergence, 8 degrees with default settings). "
     "The distance oracle runs twice: with mjOption.ccd_iterations raised to 200 (GJK/EPA stop on ccd_tolerance = 1e-6: tolerance 2e-6 on every distance) and with the shipped default of 35 iterations, where the EPA on margin-inflated curved shapes is iteration-limited "
     "(observed: contact dist off by up to 1e-4 and normal by ~3 degrees at inflated depth 0.06, both gone with 100 iterations) and tolerances scale with the depth (1e-5 below depth 0.02, else 0.2-0.5 percent).")
@@ -399,7 +399,7 @@ def dist_cases(ctx):
 
 
 def touching_cases(ctx):
-    """axis-aligned pairs of GJK/EPA shapes exactly touching (gap 0) and a hair apart / overlapping (+-1e-12), in the
+    """axis-aligned pairs of GJK/EPA shapes exactly touching (gap 0) and nearly touching (|gap| from 1e-12 to 1e-5, both signs), in the
     canonical frame and under a common random rigid motion.  B is centred on a principal axis d of A with its own axes mapped onto
     A's axes, so both bodies are symmetric about the line of centres and the true signed distance along d equals the gap exactly."""
     rng = ctx.rng
@@ -407,9 +407,9 @@ def touching_cases(ctx):
     pairs = [(ELLIPSOID, ELLIPSOID), (ELLIPSOID, CYLINDER), (ELLIPSOID, BOX), (CYLINDER, CYLINDER), (CYLINDER, BOX), (BOX, BOX),
              (SPHERE, ELLIPSOID), (CAPSULE, ELLIPSOID), (CAPSULE, CYLINDER)]
     combos = [(tA, tB, qn, q, dn, d, gap) for (tA, tB) in pairs for (qn, q) in G.ALIGNED_QUATS[:4] for (dn, d) in (G.ALIGNED_DIRS[0], G.ALIGNED_DIRS[2], G.ALIGNED_DIRS[3])
-              for gap in (0.0, 1e-12, -1e-12)]
+              for gap in (0.0, 1e-12, -1e-12, 1e-10, -1e-10, 1e-9, -1e-9, 1e-8, -1e-8, 1e-7, -1e-7, 1e-6, -1e-6, 1e-5, -1e-5)]
     if not big:
-        combos = rng.sample(combos, 40) + [c for c in combos if c[0] == CYLINDER and c[1] == CYLINDER and c[2] == "aligned" and c[4] == "+y"]
+        combos = rng.sample(combos, 60) + [c for c in combos if c[0] == CYLINDER and c[1] == CYLINDER and c[2] == "aligned" and c[4] == "+y"]
     out = []
     for gid, (tA, tB, qn, qB, dn, d, gap) in enumerate(combos):
         sA = [rng.choice([0.1, 0.15]), rng.choice([0.2, 0.12]), rng.choice([0.25, 0.08])]
@@ -422,22 +422,39 @@ def touching_cases(ctx):
     return out
 
 
-def touching_oracle(ctx, cases, results, stats):
-    for c, w in zip(cases, results):
+def touching_line(c, margin):
+    (tA, sA, pA, qA, tB, sB, pB, qB) = G.aligned_world(c)
+    return "WORLD %d %s %d %s %s\n" % (tA, " ".join(hx(x) for x in sA + pA + qA), tB, " ".join(hx(x) for x in sB + pB + qB), " ".join(hx(x) for x in [margin, 0, margin, 0, 1.0]))
+
+
+def touching_oracle(ctx, cases, results, results0, stats):
+    """KNOWN finding C15-F1 (class touching-degenerate): aligned (axis-parallel / perpendicular) GJK/EPA pairs with |gap| <= 1e-5.
+    results: worlds with margin 0.01 per geom (mj_geomDistance clause); results0: the same worlds with margin 0 (contact clause)."""
+    for c, w, w0 in zip(cases, results, results0):
         world = list(G.aligned_world(c))
         case = {"touching": c["label"], "world": world, "rigid_motion": c["motion"]}
-        cls = "touching-degenerate" if abs(c["gap"]) < 1e-9 else "distance"
-        sig = {"site": "mjc_ccd", "class": cls}
-        if w is None:
+        sig = {"site": "mjc_ccd", "class": "touching-degenerate" if abs(c["gap"]) <= 1e-5 else "distance"}
+        if w is None or w0 is None:
             continue
         stats["touching_checked"] = stats.get("touching_checked", 0) + 1
+        bad = None
         for which in ("gd12", "gd21"):
             err = abs(w[which] - c["gap"])
             stats["touching_max_err"] = max(stats.get("touching_max_err", 0.0), err)
-            if err > 2e-6:
-                ctx.violation("impl_violation", dict(case, what="mj_geomDistance of (nearly) touching bodies equals the gap", order=which), expected=c["gap"], observed=w[which],
-                              theorem="C15 oracle: distance of touching bodies", signature=sig)
-                break
+            if err > 2e-6 and bad is None:
+                bad = ("mj_geomDistance of (nearly) touching bodies equals the gap", c["gap"], {which: w[which]})
+        if bad is None and not (c["tA"] == BOX and c["tB"] == BOX):
+            # contacts of mj_collision with margin 0: none when separated by more than the tolerance, else dist = gap
+            d0 = [x["dist"] for x in w0["cons"]]
+            if d0:
+                stats["touching_contact_max_err"] = max(stats.get("touching_contact_max_err", 0.0), max(abs(x - c["gap"]) for x in d0))
+            if any(abs(x - c["gap"]) > 2e-6 for x in d0):
+                bad = ("contact dist of (nearly) touching bodies at margin 0 equals the gap", c["gap"], d0)
+            elif c["gap"] < -2e-6 and not d0:
+                bad = ("overlapping bodies get a contact at margin 0", "a contact with dist %.3g" % c["gap"], "ncon=0")
+        if bad:
+            stats["touching_failures"] = stats.get("touching_failures", 0) + 1
+            ctx.violation("impl_violation", dict(case, what=bad[0]), expected=bad[1], observed=bad[2], theorem="C15 oracle: distance of touching bodies", signature=sig)
 
 
 def world_line(c, swap):
@@ -592,12 +609,12 @@ def run(ctx):
     stats = allstats["converged"]
     # ---------------- exactly touching / almost touching aligned pairs (the 'touching' clause of the quantifier)
     tcs = touching_cases(ctx)
-    rc, out, err = ctx.run(e_w, "CCD 0\n" + "".join(G.aligned_line(c) for c in tcs))
+    rc, out, err = ctx.run(e_w, "CCD 0\n" + "".join(touching_line(c, 0.01) + touching_line(c, 0.0) for c in tcs))
     lines = out.strip("\n").split("\n") if out.strip() else []
-    if rc != 0 or len(lines) != len(tcs):
-        ctx.broken.append(("correspondence", "driver c13_prim failed (touching stream for C15)", "rc=%s lines=%d/%d %s" % (rc, len(lines), len(tcs), err[-800:])))
+    if rc != 0 or len(lines) != 2 * len(tcs):
+        ctx.broken.append(("correspondence", "driver c13_prim failed (touching stream for C15)", "rc=%s lines=%d/%d %s" % (rc, len(lines), 2 * len(tcs), err[-800:])))
     else:
-        touching_oracle(ctx, tcs, [G.parse_world_line(l) for l in lines], stats)
+        touching_oracle(ctx, tcs, [G.parse_world_line(l) for l in lines[0::2]], [G.parse_world_line(l) for l in lines[1::2]], stats)
     phase["distance_oracle"] = round(time.time() - t0, 1)
     # ---------------- coverage
     ctx.cov["evaluations"] = len(coq_cases) + 2 * len(dcs)
